@@ -470,7 +470,10 @@ func GenC03(seed uint64) *Scenario {
 	g := newGen("C03", seed)
 	g.sc.Cfg.MaxLatNs = 300_000
 	subs := g.accounts(1+g.r.Intn(2), 2, func() int64 { return 3_000_000_000 })
-	shape := g.r.Intn(7)
+	shape := g.r.Intn(8)
+	if shape == 7 {
+		shape = 6
+	}
 	g.sc.Shape = fmt.Sprintf("shape=%d", shape)
 	var ops []Op
 	s := &sessState{name: "s1", supi: supiN(1), rgs: subs[supiN(1)]}
@@ -507,14 +510,14 @@ func GenC03(seed uint64) *Scenario {
 	case 6: // several tasks send fat updates for the same session at the same time
 		g.sc.Cfg.Concurrent = true
 		g.sc.Cfg.MaxLatNs = 2_000_000
-		g.sc.Cfg.YieldPermille = []int{0, 50, 300}[g.r.Intn(3)]
-		g.sc.Cfg.YieldMaxNs = 1_000_000
+		g.sc.Cfg.YieldPermille = []int{50, 300, 500}[g.r.Intn(3)]
+		g.sc.Cfg.YieldMaxNs = []int64{100_000, 5_000_000}[g.r.Intn(2)]
 		pre := []Op{create, mk("update", 1200+g.r.Intn(300), false)}
 		g.sc.Tasks = []Task{{ID: 0, Ops: pre}}
-		nT := 2 + g.r.Intn(2)
+		nT := 2 + g.r.Intn(3)
 		for t := 1; t <= nT; t++ {
 			var tops []Op
-			for k := 0; k < 1+g.r.Intn(3); k++ {
+			for k := 0; k < 2+g.r.Intn(3); k++ {
 				o := mk("update", 900+g.r.Intn(400), false)
 				// an online container makes the update talk to the rating server while it holds (or should hold) the subscriber
 				o.Units[0].Containers[0] = Container{QMI: "ONLINE_CHARGING", UsePermille: -1, Vol: 1}
